@@ -49,6 +49,11 @@ def rule_pipeline(ctx, rid='R1'):
                 return False
             return None
         ev = run(ctx, fi, oracle=oracle)
+        if not any(True for p in ev.paths for e in p.calls('take_axis')):
+            # the take_axis -> put -> relabel pipeline this rule reads is not there at all (the function works on the raw arrays, or through other helpers):
+            # which cells a hand-written take / mask assignment touches is a value-level question this rule cannot answer
+            ctx.undecide(rid, 'reindex_axis no longer goes through take_axis: the pipeline is written in a form the rule does not know')
+            return
         newvals = ('attr', VALUES, 'values') if is_axis else ('call', ('attr', ('name', 'np'), 'asarray'), (VALUES,), ())
         axtok = ('attr', VALUES, 'name') if is_axis else AXIS
         inst = 'values given as %s' % ('Axis' if is_axis else 'array-like')
@@ -291,75 +296,12 @@ def own_shared_dim(nm, e):
 
 
 def rule_reindex_like(ctx):
-    ctx.rule('R4', 'reindex_like accumulates over the shared dimensions', 1)
-    fi = ctx.fn(AL + 'reindex_like')
-    OTHER = P_('other')
-    ev = run(ctx, fi, mode='join', oracle=lambda a, st: True if (a[0] == 'call' and T.dotted(a[1]) == 'hasattr') else None)
-    for p in ret_paths(ev):
-        calls = [e for e in p.calls('reindex_axis')]
-        if len(calls) != 1:
-            ctx.violated('R4', fi, 'reindex_like', 'expected one reindex_axis call in the loop', node=p.node)
-            continue
-        e = calls[0]
-        c = e.a
-        recv = T.call_receiver(c)
-        alts = T.value_alts(recv)
-        if not any(x[0] == 'carried' for x in alts):
-            ctx.violated('R4', fi, e.node, 'each dimension must be reindexed starting from the result of the previous one (obj = obj.reindex_axis(...)); '
-                         'here every iteration restarts from %s, so only the last shared dimension ends up reindexed' % T.show(recv)[:60], node=e.node)
-            continue
-        if SELF not in alts:
-            ctx.violated('R4', fi, e.node, 'the first step must start from the array itself', node=e.node)
-            continue
-        if not e.loops:
-            ctx.violated('R4', fi, e.node, 'reindex_axis must be applied per dimension', node=e.node)
-            continue
-        # the dimension: a name of one of the array's own axes that also is a name of the template - either tested inside the loop
-        # (for ax in self.axes: if ax.name in newdims) or collected beforehand (for dim in [ax.name for ax in self.axes if ax.name in newdims])
-        nm = T.kw(c, 'axis')
-        labels = c[2][0] if c[2] else None
-        want_labels = ('attr', ('sub', ('attr', OTHER, 'axes'), nm), 'values')
-        if nm is None or labels != want_labels:
-            ctx.violated('R4', fi, e.node, 'labels and axis= must refer to the same dimension name (other.axes[ax.name].values, axis=ax.name)', node=e.node)
-            continue
-        own_inside = nm[0] == 'attr' and nm[2] == 'name' and nm[1][0] == 'elem' and nm[1][1] == ('attr', SELF, 'axes')
-        own_before = nm[0] == 'elem' and nm[1][0] == 'comp' and len(nm[1][3]) == 1 and nm[1][3][0][1] == ('attr', SELF, 'axes') \
-            and nm[1][2] == ('attr', ('elem', ('attr', SELF, 'axes'), nm[1][3][0][0]), 'name')
-        if not (own_inside or own_before):
-            ctx.violated('R4', fi, e.node, 'the dimensions to reindex must be names of the array\'s own axes (found %s)' % T.show(nm)[:80], node=e.node)
-            continue
-        if own_inside:
-            g = [pol for a, pol in e.guards if a[0] == 'cmp' and a[1] == 'in' and a[2] == nm]
-        else:
-            g = [True for cnd in nm[1][3][0][2] if cnd[0] == 'cmp' and cnd[1] == 'in' and cnd[2] == nm[1][2]]
-        if g != [True]:
-            ctx.violated('R4', fi, e.node, 'only dimensions present in the template are reindexed', node=e.node)
-            continue
-        # a shared dimension may be skipped only when the labels are identical *in order* (np.array_equal / np.all(a == b)); a set comparison
-        # (np.isin(...).all(), set(...) ==) also holds for permuted labels, whose data then stay in the old order
-        evf = run(ctx, fi, mode='fork', oracle=lambda a, st: True if (a[0] == 'call' and T.dotted(a[1]) == 'hasattr') else None)
-        fork_guards = [g for q in evf.paths for e2 in q.calls('reindex_axis') for g in e2.guards]
-        extra = [(a, pol) for a, pol in list(e.guards) + fork_guards if not (a[0] == 'cmp' and a[1] == 'in' and a[2] == nm) and not (a[0] == 'call' and T.dotted(a[1]) == 'hasattr')
-                 and not (a[0] == 'cmp' and a[1] == 'is' and a[3] == T.CONST_NONE)]
-        weak = None
-        for a, pol in extra:
-            sh = T.show(a)
-            exact = (a[0] == 'call' and T.dotted(a[1]) in ('np.array_equal', 'np.all') and a[2] and (T.dotted(a[1]) == 'np.array_equal' or (a[2][0][0] == 'cmp' and a[2][0][1] == '==')))
-            if any(x[0] == 'call' and (T.call_name(x) in ('isin', 'in1d', 'issubset') or T.dotted(x[1]) in ('set', 'frozenset', 'sorted')) for x in T.subterms(a)):
-                weak = a
-            elif not exact and not (a[0] == 'cmp' and a[1] == '==' and 'size' in sh):
-                weak = weak or None
-        if weak is not None:
-            ctx.violated('R4', fi, 'dimension skipped on a set comparison', 'reindex_like skips a shared dimension under the test %s: that also holds when the template carries the same labels in '
-                         'another order, so the axis and the data stay in the old order' % T.show(weak)[:80], node=e.node)
-            continue
-        if dict(c[3]).get('**') != P_('**kwargs'):
-            ctx.violated('R4', fi, e.node, 'keyword options (fill_value, method, raise_error) must be forwarded', node=e.node)
-            continue
-        if not any(x[0] == 'call' and T.call_name(x) == 'reindex_axis' for x in T.value_alts(p.value)):
-            ctx.violated('R4', fi, 'return ' + T.show(p.value)[:100], 'the accumulated result must be returned', node=p.node)
-            continue
-        ctx.holds('R4', 'reindex_like: obj = obj.reindex_axis(other.axes[name].values, axis=name, **kwargs) for shared dims')
+    """R4: reindex_like re-indexes every dimension shared with the template onto the template's labels of the dimension *of that name*, each step starting from the
+    result of the previous one, handing the options on.  Decided by interpreting reindex_like on an abstract array (its reindex_axis gives a new array that records the
+    dimension, the labels and the options) against templates with the dimensions in the same, reversed and rotated order, a subset, extra and no shared dimensions,
+    an Axes object: the recorded re-indexings are compared with the frozen table - whatever loop, fold or comprehension the function is written with."""
+    from ..scenario_rule import rule_scenarios
+    rule_scenarios(ctx, 'R4', only=AL + 'reindex_like', title='reindex_like accumulates over the shared dimensions, labels paired with dimensions by name (interpreted scenarios)')
 
 
 def check(ctx):
